@@ -125,10 +125,14 @@ CHECKS["C24"] = dict(
     gen=dict(
         quick=[_gen("KadGenEdges.cfg", "edges", "edges-empty", dict(VERIF_UNIV="adm", VERIF_BINMAX=5, VERIF_ALLREACH=1, VERIF_PREFILL=0), depth=3, workers=4, max=250),
                _gen("KadGenEdges.cfg", "edges", "edges-filled", dict(VERIF_UNIV="adm", VERIF_BINMAX=5, VERIF_ALLREACH=1, VERIF_PREFILL=4), depth=3, workers=4, max=350),
+               # protection refreshes replace the protected set: every pair of successive sets (shrinking, emptying, growing) on an
+               # over-saturated bin, with admission probes and the inbound connection of a (formerly) protected peer
+               _gen("KadGenProt.cfg", "exh", "protect-refresh", dict(VERIF_UNIV="adm", VERIF_BINMAX=5, VERIF_ALLREACH=1, VERIF_PREFILL=5)),
                _gen("KadGenWalk.cfg", "sim", "walks", dict(VERIF_UNIV="adm", VERIF_BINMAX=5), depth=40, num=4, max=40)],
         thorough=[_gen("KadGenEdges.cfg", "edges", "edges-empty", dict(VERIF_UNIV="adm", VERIF_BINMAX=5, VERIF_ALLREACH=1, VERIF_PREFILL=0), depth=4, workers=4, max=1200),
                   _gen("KadGenEdges.cfg", "edges", "edges-filled", dict(VERIF_UNIV="adm", VERIF_BINMAX=5, VERIF_ALLREACH=1, VERIF_PREFILL=4), depth=4, workers=4, max=2500),
                   _gen("KadGenEdges.cfg", "edges", "edges-filled5", dict(VERIF_UNIV="adm", VERIF_BINMAX=5, VERIF_ALLREACH=1, VERIF_PREFILL=5), depth=3, workers=4, max=800),
+                  _gen("KadGenProt.cfg", "exh", "protect-refresh", dict(VERIF_UNIV="adm", VERIF_BINMAX=5, VERIF_ALLREACH=1, VERIF_PREFILL=5)),
                   _gen("KadGenWalk.cfg", "sim", "walks", dict(VERIF_UNIV="adm", VERIF_BINMAX=5), depth=60, num=30, max=400),
                   _gen("KadGenWalk.cfg", "sim", "walks-allreach", dict(VERIF_UNIV="adm", VERIF_BINMAX=5, VERIF_ALLREACH=1), depth=60, num=20, max=300, salt=1),
                   _gen("KadGenWalk.cfg", "sim", "walks-default", dict(VERIF_UNIV="depth", VERIF_BINMAX=0), depth=50, num=10, max=100, salt=2)]),
@@ -137,9 +141,10 @@ CHECKS["C24"] = dict(
     corrupt=corrupt_field("connected", "st", lambda e: _st(e, conn=e["st"]["conn"][:-1]) if e["err"] == "" and e["st"]["conn"] else None),
     nontrivial=lambda s: any(o["op"] in ("connected", "outbound") for o in s["ops"]) and any(o["op"] in ("disconnected", "force", "pick", "protect") or (o["op"] == "connected" and not o["force"]) for o in s["ops"]),
     rule="TLC-generated histories over 8+4 full nodes in two bins and two boot nodes, Options.BinMaxPeers 5 (over-saturation 5): edges "
-         "mode with a VIEW that identifies peers of one bin (per-bin counts of connected / known-only / protected, class of the last "
+         "mode with a VIEW that identifies peers of one bin (per-bin counts of connected / known-only / protected, formerly protected, class of the last "
          "operation), started from the empty topology and from 3+4 (3+5) connected peers so that the saturation boundary is within "
-         "reach; -simulate walks with reachability reports; distinct = distinct operation sequence; non-trivial = a connection and a "
+         "reach; every pair of successive RefreshProtectPeer sets on an over-saturated bin with admission probes and the inbound "
+         "connection of a (formerly) protected peer; -simulate walks with reachability reports; distinct = distinct operation sequence; non-trivial = a connection and a "
          "later disconnection, probe, protection change or unforced inbound connection",
     exhaustive=dict(quick=False, thorough=False),
     assumptions=["a peer is either a full node or a boot node for the whole history; light nodes never reach the topology (libp2p keeps them apart)",
